@@ -489,10 +489,73 @@ fn xrefstm(driver: &Driver, seed: u64, n: u64, outside: bool) -> Stream {
     st
 }
 
+fn parse_entry(t: &str) -> Option<XRef> {
+    let f: Vec<&str> = t.split('.').collect();
+    match f.as_slice() {
+        ["f", a, b] => Some(XRef::Free { next_obj_nr: a.parse().ok()?, gen_nr: b.parse().ok()? }),
+        ["r", a, b] => Some(XRef::Raw { pos: a.parse().ok()?, gen_nr: b.parse().ok()? }),
+        ["s", a, b] => Some(XRef::Stream { stream_id: a.parse().ok()?, index: b.parse().ok()? }),
+        ["P"] => Some(XRef::Promised),
+        ["I"] => Some(XRef::Invalid),
+        _ => None,
+    }
+}
+
+/// the implementation's answer to one stored request line (used by --replay)
+fn replay_request(rq: &str) -> String {
+    use pdf::backend::Backend;
+    let f: Vec<&str> = rq.split(' ').collect();
+    match f.as_slice() {
+        ["c02.merge", size, secs] => {
+            let mut all = vec![];
+            if *secs != "-" {
+                for sec in secs.split('|') {
+                    let mut subs = vec![];
+                    if sec != "-" {
+                        for sub in sec.split(';') {
+                            let (first, es) = sub.split_once(':').unwrap_or(("0", "-"));
+                            let es: Vec<XRef> = if es == "-" { vec![] } else { es.split(',').filter_map(parse_entry).collect() };
+                            subs.push((first.parse().unwrap_or(0), es));
+                        }
+                    }
+                    all.push(subs);
+                }
+            }
+            real_merge(size.parse().unwrap_or(0), &all)
+        }
+        ["c02.xrefstm", allow, size, ws, index, hex] => {
+            let w: Vec<u64> = ws.split(',').filter_map(|x| x.parse().ok()).collect();
+            let ix: Vec<(u64, u64)> = if *index == "-" { vec![] } else { index.split(',').filter_map(|p| p.split_once(':').and_then(|(a, b)| Some((a.parse().ok()?, b.parse().ok()?)))).collect() };
+            let data = crate::driver::unhex(hex).unwrap_or_default();
+            let bytes = xrefstm_file(size.parse().unwrap_or(0), &w, &ix, &data);
+            catch_unwind(AssertUnwindSafe(|| {
+                let opts = if *allow == "1" { ParseOptions::tolerant() } else { ParseOptions::strict() };
+                let storage = match Storage::with_cache(bytes.clone(), opts, NoCache, NoCache, NoLog) { Ok(s) => s, Err(_) => return "err".to_string() };
+                let resolver = storage.resolver();
+                match bytes.read_xref_table_and_trailer(0, &resolver) {
+                    Ok((t, _)) => format!("ok {}", (0..t.len()).map(|i| show_entry(&t.get(i as u64).unwrap())).collect::<Vec<_>>().join(",")),
+                    Err(_) => "err".to_string(),
+                }
+            })).unwrap_or_else(|_| "panic".into())
+        }
+        _ => "unsupported-replay".into(),
+    }
+}
+
 pub fn run(driver: &Driver, seed: u64, thorough: bool, replay: Option<&serde_json::Value>) -> Report {
     let mut rep = Report::new("C02");
     if let Some(r) = replay {
-        // replay of a stored case: re-run exactly that (stream, seed, case)
+        if let Some(rq) = r.get("disagreement").and_then(|d| d.get("request")).and_then(|x| x.as_str()) {
+            // replay of a correspondence disagreement: the request itself is the case
+            let mut st = Stream::new(r["stream"].as_str().unwrap_or("c02.replay"), true);
+            let imp = replay_request(rq);
+            let m = driver.ask(&[rq.to_string()]).remove(0);
+            let m = if rq.starts_with("c02.merge") { model_entries(&m) } else { m };
+            st.case(rq, &m, &imp, true);
+            rep.streams.push(st);
+            return rep;
+        }
+        // replay of a stored oracle case: re-run exactly that (stream, seed, case)
         let seed = r["seed"].as_u64().unwrap_or(seed);
         let case = r["case"].as_u64().unwrap_or(0);
         let (st, or) = file_level(driver, seed, case, case + 1);
